@@ -137,8 +137,17 @@ func (r *replayer) pairCase(c Case, strict bool) {
 			for j := range progs {
 				a, b := progs[i], progs[j]
 				if a.m.Optimize && !b.m.Optimize && a.m.Env == b.m.Env && a.cg != nil && b.cg == nil && a.cg.Panic == "" {
+					allFail := len(c.Runs) > 0
+					for _, rc := range c.Runs {
+						if rc.Exp.Ok {
+							allFail = false
+						}
+					}
 					if c.Cdz {
 						r.sum.Skipped["const-div-zero-rejected"]++
+					} else if a.m.Const && allFail {
+						// a constant-expression call whose evaluation fails: the failure moved to compile time
+						r.sum.Skipped["failing const call rejected at compile time"]++
 					} else {
 						r.fail(Failure{Why: "optimizer-rejects", Src: c.Src, Mode: a.m.String(), Mode2: b.m.String(), Got: a.cg})
 					}
